@@ -44,6 +44,19 @@ def read_header(path):
     return flavor, feats
 
 
+def run_valgrind(path, timeout=300):
+    """Memory errors on real Arc/Weak blocks are silent natively: confirm them under valgrind memcheck."""
+    flavor, feats = read_header(path)
+    binp = build.build_native(flavor, feats)
+    try:
+        r = subprocess.run(['valgrind', '--error-exitcode=99', '--quiet', binp, path], stdout=subprocess.PIPE,
+                           stderr=subprocess.STDOUT, text=True, timeout=timeout)
+    except subprocess.TimeoutExpired:
+        return False, 'valgrind timed out'
+    bad = r.returncode == 99 or 'Invalid read' in r.stdout or 'Invalid write' in r.stdout or 'Invalid free' in r.stdout
+    return bad, r.stdout[-3000:]
+
+
 def run_native(path, timeout=60, trace=False):
     """Returns dict: exit, out, panics [(file:line, msg)], assert_fails [ids], stuck, done."""
     flavor, feats = read_header(path)
@@ -58,7 +71,7 @@ def run_native(path, timeout=60, trace=False):
     except subprocess.TimeoutExpired as e:
         out = (e.stdout or b'').decode() if isinstance(e.stdout, bytes) else (e.stdout or '')
         code, hung = -1, True
-    res = {'exit': code, 'out': out, 'hung': hung}
+    res = {'exit': code, 'out': out, 'hung': hung, 'path': path}
     res['panics'] = re.findall(r'^PANIC at (\S+) thread=(-?\d+) msg=(.*)$', out, re.M)
     res['assert_fails'] = [int(x) for x in re.findall(r'^ASSERT-FAIL id=(\d+)', out, re.M)]
     res['stuck'] = 'REPLAY-STUCK' in out or 'REPLAY-DIVERGED' in out
@@ -88,8 +101,14 @@ def reproduces(violation, res):
         # a library panic natively, at another line (e.g. std frame): accept if any non-user panic occurred
         return True
     if k in ('engine',):
-        # memory errors: native confirmation = crash, assert failure or panic
-        return bool(res['assert_fails'] or res['panics'] or res['crashed'])
+        # memory errors: native confirmation = crash, assert failure or panic; else valgrind memcheck
+        if res['assert_fails'] or res['panics'] or res['crashed']:
+            return True
+        if res.get('path'):
+            bad, log = run_valgrind(res['path'])
+            res['out'] = (res.get('out') or '') + '\n--- valgrind ---\n' + log
+            return bad
+        return False
     if k == 'blocking' or k == 'bound':
         return res['hung']
     return False
